@@ -2,13 +2,17 @@
 C07 — property theorems: `(*Record).UnmarshalText` implements the hosts(5) field grammar
 (`Spec/C07.lean`) for every byte line and every behaviour of `idna.ToASCII`; its rejections
 are classified as the property says; the two cutting passes agree; `MarshalText` of an
-accepted record re-parses to the same record (contract ADDR-RT); nothing panics.
+accepted record re-parses to the same record (no contract: `netip.Addr.MarshalText` /
+`String` are modelled in `Go/NetipFmt.lean` and proved to be inverted by the `ParseAddr`
+model, `addr_roundtrip`); nothing panics.
 
 `NameOK toASCII n` is `C03.DomainNameOK toASCII n`, i.e. by `C03.validateDomainName_iff`
 "`netutil.ValidateDomainName(n) == nil`"; `parseAddr` is the Lean model of `netip.ParseAddr`.
 -/
 import GolibsVerif.Lemmas.C07
 import GolibsVerif.Lemmas.C07Addr
+import GolibsVerif.Lemmas.NetipFmt
+import GolibsVerif.Lemmas.NetipFmtWF
 
 namespace GolibsVerif.C07
 open GolibsVerif GolibsVerif.Str GolibsVerif.Netutil GolibsVerif.Netip
@@ -165,20 +169,39 @@ theorem accepted_names_clean (toASCII : Bytes → Option Bytes) (r r' : Record) 
   refine ⟨hne, fun n hn => mem_fields (line := line) ?_⟩
   rw [hf]; simp [hn]
 
+/-- **`netip.ParseAddr` inverts `netip.Addr.String` / `MarshalText`** (formerly the trusted
+contract ADDR-RT).  For every non-zero address — four bytes, or sixteen bytes with any zone
+(`[]` = no zone; a zone may contain `'%'`, `':'`, `'.'`, anything: the parser cuts at the
+*first* `'%'` and the address part never contains one) — the model of `ParseAddr` applied to
+the model of `String()` (dotted decimal; `::ffff:a.b.c.d` for IPv4-mapped; lower-case hex
+groups without leading zeros, the first longest run of ≥ 2 zero groups written `::`;
+`%zone`) returns the address.  `MarshalText` gives the same text. -/
+theorem addr_roundtrip (a : Addr) (h : WF a) :
+    parseAddr (addrString a) = some a ∧ addrMarshalText a = addrString a :=
+  ⟨parseAddr_addrString a h, (addrString_eq_marshalText a (by rintro rfl; exact h)).symm⟩
+
+/-- Every address `ParseAddr` returns is well-formed: four resp. sixteen bytes below 256,
+never the zero `Addr`. -/
+theorem parsed_addr_wf (s : Bytes) (a : Addr) (h : parseAddr s = some a) : WF a :=
+  parseAddr_wf s a h
+
 /-- **Round trip.**  If `UnmarshalText` accepted a line and produced `r`, then parsing
 `r.MarshalText()` succeeds and yields the same `Addr` and `Names` (`Source` is never touched
-by `UnmarshalText`).  The only hypothesis is contract ADDR-RT at the record's address (sampled
-by the harness on every accepted record): `ParseAddr(a.String()) = a`.  That the text form
-of `a` contains no blank and no `'#'` is *proved* from the `netip` model
-(`addr_text_clean`: such a byte could only sit in the zone, and the zone of `a` was cut out of
-a blank/`#`-free field). -/
-theorem marshal_unmarshal (toASCII : Bytes → Option Bytes) (formatAddr : Addr → Bytes)
+by `UnmarshalText`).  No hypothesis: `MarshalText` calls `netip.Addr.MarshalText`, modelled
+statement by statement in `Go/NetipFmt.lean` (`addrMarshalText`), and the address of an
+accepted record came out of `ParseAddr`, hence is well-formed and parses back from its own
+text (`addr_roundtrip`).  That the text form of `a` contains no blank and no `'#'` follows
+from the `netip` parser model (`addr_text_clean`: such a byte could only sit in the zone,
+and the zone of `a` was cut out of a blank/`#`-free field). -/
+theorem marshal_unmarshal (toASCII : Bytes → Option Bytes)
     (r0 r0' r : Record) (line : Bytes)
-    (hacc : unmarshalText toASCII r0 line = .ok (r, none))
-    (hrt : parseAddr (formatAddr r.addr) = some r.addr) :
-    unmarshalText toASCII r0' (marshalText formatAddr r) =
+    (hacc : unmarshalText toASCII r0 line = .ok (r, none)) :
+    unmarshalText toASCII r0' (marshalText addrMarshalText r) =
       .ok ({ r with source := r0'.source }, none) := by
   obtain ⟨⟨f, hf, hne, hp, hv⟩, _⟩ := (unmarshal_iff toASCII r0 line).2 r hacc
+  have hrt : parseAddr (addrMarshalText r.addr) = some r.addr :=
+    parseAddr_addrMarshalText r.addr (parseAddr_wf f r.addr hp)
+  generalize addrMarshalText = formatAddr at hrt ⊢
   have hclean : ∀ b ∈ formatAddr r.addr, isSep b = false :=
     addr_text_clean f _ r.addr (mem_fields (line := line) (by rw [hf]; simp)).2 hp hrt
   obtain ⟨_, hnames⟩ := accepted_names_clean toASCII r0 r line hacc
@@ -208,6 +231,21 @@ theorem marshal_unmarshal (toASCII : Bytes → Option Bytes) (formatAddr : Addr 
     ⟨formatAddr r.addr, hfields, hne, hrt, hv⟩
   rw [this]
 
+/-- the same with `Addr.String()` as the formatter (equal to `MarshalText` on every address an
+accepted record can hold) -/
+theorem marshal_unmarshal_string (toASCII : Bytes → Option Bytes)
+    (r0 r0' r : Record) (line : Bytes)
+    (hacc : unmarshalText toASCII r0 line = .ok (r, none)) :
+    unmarshalText toASCII r0' (marshalText addrString r) =
+      .ok ({ r with source := r0'.source }, none) := by
+  obtain ⟨⟨f, _, _, hp, _⟩, _⟩ := (unmarshal_iff toASCII r0 line).2 r hacc
+  have hwf := parseAddr_wf f r.addr hp
+  have : marshalText addrString r = marshalText addrMarshalText r := by
+    unfold marshalText
+    rw [addrString_eq_marshalText r.addr (by intro h; rw [h] at hwf; exact hwf)]
+  rw [this]
+  exact marshal_unmarshal toASCII r0 r0' r line hacc
+
 /-! ### Non-vacuity -/
 
 def idAscii : Bytes → Option Bytes := some
@@ -227,9 +265,21 @@ example : fields (ascii "# only a comment") = [] := by decide
 example : fields (ascii "::1 # no names") = [ascii "::1"] := by decide
 example : fields (ascii "fe80::1%eth0 a\tb\r") = [ascii "fe80::1%eth0", ascii "a", ascii "b\r"] := by decide
 example : parseAddr (ascii "1.2.3.4.5") = none := by decide
-/-- ADDR-RT is satisfiable: the canonical text of ::1 parses back -/
 example : parseAddr (ascii "0:0::1") = some (.v6 [0,0,0,0,0,0,0,0,0,0,0,0,0,0,0,1] []) ∧
     parseAddr (ascii "::1") = some (.v6 [0,0,0,0,0,0,0,0,0,0,0,0,0,0,0,1] []) := by decide
+/-- the formatter model on the shapes of `Addr.String`'s documentation, a zone containing
+`'%'`, the first-of-two-equal-runs rule and a single zero group (not compressed) -/
+example : addrString (.v4 [192, 0, 2, 1]) = ascii "192.0.2.1" ∧
+    addrString (.v6 [0x20,1,0xd,0xb8,0,0,0,0,0,0,0,0,0,0,0,1] []) = ascii "2001:db8::1" ∧
+    addrString (.v6 [0,0,0,0,0,0,0,0,0,0,255,255,1,2,3,4] (ascii "z")) = ascii "::ffff:1.2.3.4%z" ∧
+    addrString (.v6 [0xfe,0x80,0,0,0,0,0,0,0,0,0,0,0,0,0,1] (ascii "a%b")) = ascii "fe80::1%a%b" ∧
+    addrString (.v6 [0,1,0,0,0,0,0,1,0,0,0,0,0,1,0,1] []) = ascii "1::1:0:0:1:1" ∧
+    addrString (.v6 [0,1,0,0,0,1,0,1,0,1,0,1,0,1,0,1] []) = ascii "1:0:1:1:1:1:1:1" ∧
+    addrString (.v6 (List.replicate 16 0) []) = ascii "::" ∧
+    addrString .invalid = ascii "invalid IP" ∧ addrMarshalText .invalid = [] := by decide
+/-- `WF` is satisfiable (and excludes the zero `Addr`) -/
+example : WF (.v6 (List.replicate 16 0) (ascii "%")) ∧ WF (.v4 [0, 0, 0, 255]) ∧ ¬ WF .invalid :=
+  ⟨⟨rfl, by decide⟩, ⟨rfl, by decide⟩, fun h => h⟩
 /-- a name that `ValidateDomainName` rejects (over-long label) after a valid one -/
 example : C03.accepted (validateDomainName idAscii (ascii "a.b")) = true ∧
     C03.accepted (validateDomainName idAscii (List.replicate 64 97)) = false := by decide
